@@ -1,18 +1,19 @@
 #!/bin/sh
-# tools/verify_seed.sh <worktree> : confirm a seeded change (1) passes the pinned suite, (2) demo fails with it and passes without it
-# prints SUMMARY lines; leaves the worktree as it was (change applied).
+# tools/verify_seed.sh <worktree> : confirm a seeded change (1) passes the pinned suite, (2) demo fails with it and passes without it.
+# Does NOT use `git stash` (the stash is shared by all worktrees of a repository, so concurrent use mixes changes up).
 wt="$1"
 cd "$wt" || exit 2
-git diff > /tmp/seed_$$.diff
-[ -s /tmp/seed_$$.diff ] || { echo "SUMMARY no-diff"; exit 2; }
+p=/tmp/seed_$$.diff
+git diff -- src > $p
+[ -s $p ] || { echo "SUMMARY no-diff"; exit 2; }
 demo=""
 for d in demo.py demo_test.py test_demo.py; do [ -f "$d" ] && demo="$d"; done
 [ -n "$demo" ] || { echo "SUMMARY no-demo"; exit 2; }
 run_demo() { case "$demo" in test_*|*_test.py) PYTHONPATH="$wt/src" /venv/bin/python -W ignore -m pytest -q -p no:cacheprovider "$demo" >/tmp/demo_$$.out 2>&1;; *) PYTHONPATH="$wt/src" /venv/bin/python -W ignore "$demo" >/tmp/demo_$$.out 2>&1;; esac; }
 run_demo; with=$?
-git stash -q -- src
+git checkout -- src
 run_demo; without=$?
-git stash pop -q
+git apply $p || echo "SUMMARY could not re-apply the change"
 echo "SUMMARY demo_with_change_rc=$with demo_without_change_rc=$without"
 PYTHONPATH="$wt/src" /venv/bin/python -m pytest -ra -q -p no:cacheprovider --timeout=900 --continue-on-collection-errors 2>&1 | tail -4
-rm -f /tmp/seed_$$.diff /tmp/demo_$$.out
+rm -f $p /tmp/demo_$$.out
